@@ -91,8 +91,12 @@ def run(ctx):
     _replace(ctx)
     _never_allocate_failed(ctx)
     _balance(ctx)
+    ctx.rule("C06.D7", "shared with C04: every store change on the failover path is published under a global epoch that was not handed out before")
     ctx.rule("C06.D6", "the promotion performed by replace_failed_proxy is kept when no replacement is available: every storage back-end persists the store whatever replace_failed_proxy returns")
     _persist_on_error(ctx)
+    from ..engine import AliasCtx
+    from . import C04 as _c04
+    _c04.run(AliasCtx(ctx, "C06.D7", only={"C04.D1"}))
 
 
 def _pa_eq_oracle(du, failed_idx, it_holder):
